@@ -1,0 +1,24 @@
+//go:build verif
+// +build verif
+
+package manifest
+
+import (
+	"time"
+
+	"github.com/ovrclk/akash/provider/session"
+	dtypes "github.com/ovrclk/akash/x/deployment/types"
+	mtypes "github.com/ovrclk/akash/x/market/types"
+)
+
+// This file exists only in builds with the "verif" tag. It lets an external
+// verification harness start a manifest watchdog on its own, exactly as the
+// manifest service starts it (newWatchdog).
+
+// VerifNewWatchdog starts a watchdog and returns its stop function (what the
+// service calls when a manifest arrives) and the channel that is closed when
+// its run() has ended.
+func VerifNewWatchdog(sess session.Session, parent <-chan struct{}, done chan<- dtypes.DeploymentID, leaseID mtypes.LeaseID, timeout time.Duration) (stop func(), ended <-chan struct{}) {
+	wd := newWatchdog(sess, parent, done, leaseID, timeout)
+	return wd.stop, wd.lc.Done()
+}
